@@ -17,7 +17,8 @@ RULE = ("cases: every mask of u8/i8 for iter_submasks and iter_supermasks; u16/i
         "than one element (masks, permutations), resp. a sequence of length >= 2 (next_permutation), resp. a non-empty grid (neighbours)")
 ASSUMPTIONS = [
     "the Lean model of rlib_iter is hand-written; it is tied to the code by running both on the same cases",
-    "sequence elements are modelled as mathematical integers (the harness uses i64); next_permutation only uses `<`/`>` of `Ord`",
+    "sequence elements are modelled as mathematical integers (the harness uses i64); next_permutation only uses `<`/`>` of `Ord` "
+    "(the harness also steps every sequence as Vec<Reverse<i128>> and as a struct ordered by a string key and reports a difference)",
     "neighbour iterators: n, m, i, j < 2^63 - 1 (no isize overflow in `i + x`)",
 ]
 TRUSTED_EXTRA = ["64-bit digest (FNV-style, written twice: Lean driver and Rust harness) used to compare collected outputs longer than 64 masks / 24 arrangements"]
@@ -42,7 +43,7 @@ def nontrivial(case, rec):
     op = toks[0].split(":")[0]
     try:
         if op in ("sub", "sup"):
-            return rec["model"][2] not in ("[0]", "[-1]") and "," in rec["model"][2] or rec["model"][2].startswith("n=")
+            return "," in rec["model"][2] or rec["model"][2].startswith("n=")
         if op == "np":
             return toks[1].count(",") >= 1
         if op == "perms":
